@@ -141,15 +141,16 @@ def make_case(d, shape):
     return u, orig, direct_call(d)
 
 
-def is_roundtrip(d, n):
-    """does the case re-fold with exactly the arguments of the unfolding that made its input?"""
+def is_roundtrip(d, s):
+    """does the case re-fold with exactly the arguments (mode AND target shape) of the unfolding that made its input?"""
     k = d[0]
+    n = len(s)
     if k in ("vec_to_tensor", "partial_vec_to_tensor"):
-        return True
+        return tuple(d[1]) == tuple(s)
     if k == "fold":
-        return -n <= d[1] < n and d[1] % n == d[3]
+        return tuple(d[2]) == tuple(s) and -n <= d[1] < n and d[1] % n == d[3]
     if k == "partial_fold":
-        return d[1] == d[5]
+        return tuple(d[2]) == tuple(s) and d[1] == d[5]
     return False
 
 
@@ -214,6 +215,17 @@ def gen_shape(s, tier, rng, light):
     if n >= 2:
         a_, b_ = rng.sample(modes, 2)
         yield ("fold", a_, s, b_), s                         # folding along another mode than the unfolding: compared with the model only
+    if n >= 1:
+        # a target shape with the wrong number of entries (one size changed): the reject side of C01_fold_ok_iff, through
+        # fold / vec_to_tensor / partial_fold themselves and not only through the reshape primitive
+        j = rng.randrange(n); m_ = rng.randrange(n)
+        bad = tuple(x + 1 if k == j else x for k, x in enumerate(s))
+        yield ("fold", m_, bad, m_), s
+        yield ("vec_to_tensor", bad), s
+        yield ("partial_fold", 0, bad, 0, 0, 0, False), s
+        if n >= 2 and s[0] != s[1]:
+            swapped = (s[1], s[0]) + tuple(s[2:])             # right number of entries, wrong sizes: accepted, compared with the model only
+            yield ("fold", m_, swapped, m_), s
     # partial variants
     combos = [(sb, se) for sb in range(0, n + 1) for se in range(0, n + 1 - sb)]
     for sb, se in some(combos, 4):
@@ -316,8 +328,17 @@ def domain_ok(d, s):
         rows = [d[1]] if isinstance(d[1], int) else list(d[1])
         cols = [i for i in range(n) if i not in rows] if d[2] is None else ([d[2]] if isinstance(d[2], int) else list(d[2]))
         return sorted(rows + cols) == list(range(n))
+    if k == "fold":
+        # C01_fold_ok_iff (+ C01_fold_signed_mode): the mode exists in the target shape and the target shape has as many
+        # entries as the matrix (which has as many as the original tensor)
+        L = len(d[2])
+        return (-L <= d[1] < L) and int(np.prod(d[2], dtype=np.int64)) == int(np.prod(s, dtype=np.int64))
+    if k == "vec_to_tensor":
+        return int(np.prod(d[1], dtype=np.int64)) == int(np.prod(s, dtype=np.int64))
     if k in REFOLD:
-        return True if is_roundtrip(d, n) else None
+        if int(np.prod(d[1] if k == "partial_vec_to_tensor" else d[2], dtype=np.int64)) != int(np.prod(s, dtype=np.int64)):
+            return False
+        return True if is_roundtrip(d, s) else None
     if k in ("moveaxis", "moveaxis_generic"):
         a, b = d[1], d[2]
         if -n <= a < n and -n <= b < n:
@@ -349,7 +370,7 @@ def spec_predicate(d, orig, out):
     if v.dtype != orig.dtype:
         return f"{name}: dtype changed {orig.dtype} -> {v.dtype}"
     if name in REFOLD:
-        if not is_roundtrip(d, n):
+        if not is_roundtrip(d, s):
             return None
         if v.shape != orig.shape or v.tobytes() != np.ascontiguousarray(orig).tobytes():
             return f"{name}: round trip is not the identity"
